@@ -5,7 +5,7 @@ PID = 'C07'
 
 CLAIM = dict(
     text='Mul / TMul in SparseCSC.tla transcribe the column scatter / gather loops of Sparse::multiply / transpose_multiply. On every reachable state of the C06 history machine (so on matrices that have been through inserts, overwrites, scalings and transposes; shapes 0..2 x 0..3, every entry set of <= 2 (thorough 3) entries in every order, histories of 2 (3) operations) TLC checks for ALL vectors over {-1,0,1,2}: Mul(S,x) = Dense(S) x, TMul(S,y) = Dense(S)^T y, Mul(Transpose(S),y) = TMul(S,y), TMul(Transpose(S),x) = Mul(S,x), <y, A x> = <A^T y, x> for all pairs, Mul(Scale(S,a),x) = a Mul(S,x) and the same for TMul. '
-         'The model behaviours are replayed on the real Sparse<Rat>/Sparse<f64> with a products event on every state, and recorded executions over all shapes 0..10 x 0..10 (zero dimensions, empty/full/diagonal/single-column/row/empty-border patterns, histories of 30 modifications) are validated event by event: TLC recomputes the exact dense products of the matrix and compares multiply, transpose_multiply (each called twice on the same object), transpose().multiply, transpose().transpose_multiply, both sides of the adjoint identity computed with the crate-own Vector::dot (each compared with its exact value), the products of a scaled copy, and the dense route of the crate to_dense() * x / to_dense()^T * y (Matrix * Vector). Every history probes the products on the same object before and after every mutating step (insert new, overwrite with a different value, scale, re-binding to transpose()); in-history scale and transpose advance the reference by the abstract operator and are judged by the next probe. Vectors have pairwise distinct non-zero components. Exact (integers).',
+         'The model behaviours are replayed on the real Sparse<Rat>/Sparse<f64> with a products event on every state, and recorded executions over all shapes 0..10 x 0..10 (zero dimensions, empty/full/diagonal/single-column/row/empty-border patterns, histories of 30 modifications) are validated event by event: TLC recomputes the exact dense products of the matrix and compares multiply, transpose_multiply (each called twice on the same object), transpose().multiply, transpose().transpose_multiply, both sides of the adjoint identity computed with the crate-own Vector::dot (each compared with its exact value), the products of a scaled copy, and the dense route of the crate to_dense() * x / to_dense()^T * y (Matrix * Vector). Every history probes the products on the same object before and after every mutating step (insert new, overwrite with a different value, scale, re-binding to transpose()); in-history scale and transpose advance the reference by the abstract operator and are judged by the next probe. Every probe uses a main pair of vectors with pairwise distinct non-zero components AND a battery of vectors with exact zeros for both x and y (unit vectors e_k for every k, zeros at the first / last / every second position, a single non-zero entry, all-zero, negative zero), each put through multiply, transpose_multiply, the explicit-transpose products, the scaled products and the adjoint identity. Exact (integers).',
     note='Decided exactly by TLC. In C07 histories constructors and inserts are not judged (C06 does that); they carry the state (scale and transpose are C07 operations and are judged through the following probe): the dense reference is the abstract content of the real object\'s logged well-formed fields, so C07 demands exactly "sparse product = dense product of the same matrix". Integer-valued data (exact in f64 and Rat); by bilinearity agreement on these points is a polynomial-identity test. Trusted: TLC, Dense.tla MatVec/Transpose as the dense reference, the harness projection to integers; the adjoint scalars are computed by Vector::dot of the crate (src/vector/functions.rs).',
     design='4 (C07)')
 
@@ -33,6 +33,6 @@ def check(ctx):
     ctx.notes.append('events per operation: replay %s; recorded %s' % (cnt, cnt2))
     return ctx.finish(
         rule='cases: (i) every TLC-enumerated behaviour of the history machine with a products event after the constructor and after every operation, (ii) per shape (r,c) in 0..10^2 (every shape, twice in quick) a random pattern (random triplet order or raw arrays) with products on the fresh matrix and after each step of a rotated skeleton insert-new/scale/insert-new/transpose/overwrite/overwrite/scale/transpose/insert-new/overwrite (6 steps quick, 10 thorough), '
-             '(iii) empty/full/diagonal/last-column/first-row/empty-border patterns with several vectors and an explicit transpose, (iv) histories of 30 modifications with products after every one, (vi) from_vecs inputs with full columns / a single column / a single row stored descending, rotated and in random row order at sizes 10 and below, products after construction, overwrites, transpose, new entry, scale, (v) zero-centred histories (overwrite with 0, new 0 entry, scale by 0) with products after each step; vectors have pairwise distinct components in -15..15, scale factors in {-3..3}; element types Rat and f64. '
+             '(iii) empty/full/diagonal/last-column/first-row/empty-border patterns with several vectors and an explicit transpose, (iv) histories of 30 modifications with products after every one, (vi) from_vecs inputs with full columns / a single column / a single row stored descending, rotated and in random row order at sizes 10 and below, products after construction, overwrites, transpose, new entry, scale, (v) zero-centred histories (overwrite with 0, new 0 entry, scale by 0) with products after each step; main vectors have pairwise distinct non-zero components in -15..15, battery vectors with exact zeros as described, scale factors in {-3..3}; element types Rat and f64. '
              'A products event is non-trivial if at least one of the vectors is non-empty; distinct = distinct (vectors, factor, results).',
         trusted=['harness projection of product vectors to integers and accumulation of the adjoint scalars (harness/src/suites/sparse.rs)', 'TLC', 'Dense.tla MatVec/Transpose as the dense reference'])
